@@ -29,6 +29,7 @@ import bharness  # noqa: E402
 import runner    # noqa: E402
 
 EXEC = os.path.join(runner.VERIF, 'exec')
+ZCFGS = ('zeroize', 'zod', 'safe-zod')
 
 # rustc error codes that are about types, names, arity and patterns: what DW/Typing.lean models
 TYPING = {'E0782', 'E0308', 'E0061', 'E0599', 'E0614', 'E0605', 'E0606', 'E0604', 'E0600', 'E0369', 'E0023', 'E0026', 'E0027',
@@ -68,7 +69,11 @@ def eligible(item, cfg):
     if not bharness.compatible(item) or not bharness.compatible_cfg(item, cfg):
         return False
     src = item.rust()
-    return 'Zeroize' not in src and not getattr(item, 'expect_error', None)
+    if getattr(item, 'expect_error', None):
+        return False
+    if re.search(r'Zeroize(OnDrop)?\s*\(\s*crate\s*=\s*"?(?!::zeroize\b)', src):
+        return False          # a zeroize crate path that names nothing in the harness crate (E0433 is not about typing)
+    return cfg in ZCFGS or 'Zeroize' not in src
 
 
 def run_t(cfg, named_items, seed, mutants=6):
@@ -109,7 +114,14 @@ def run_t(cfg, named_items, seed, mutants=6):
     d = os.path.join(runner.WORK, 'typing-' + cfg)
     os.makedirs(os.path.join(d, 'src'), exist_ok=True)
     with open(os.path.join(d, 'Cargo.toml'), 'w') as f:
-        f.write('[package]\nname = "dwtyping"\nversion = "0.0.0"\nedition = "2021"\n\n[features]\nz = []\n\n[workspace]\n')
+        if cfg in ZCFGS:
+            # the zeroize crate is needed for the paths of the Zeroize / ZeroizeOnDrop impls; the (unused) path dependency
+            # on derive-where keeps /repo's Cargo.lock usable offline
+            f.write(bharness.CARGO.replace('name = "dwexec"', 'name = "dwtyping"') %
+                    (runner.REPO, ', '.join('"%s"' % x for x in bharness.FEATURES[cfg]), 'zeroize = "1"'))
+            shutil.copy(runner.REPO + '/Cargo.lock', os.path.join(d, 'Cargo.lock'))
+        else:
+            f.write('[package]\nname = "dwtyping"\nversion = "0.0.0"\nedition = "2021"\n\n[features]\nz = []\n\n[workspace]\n')
     shutil.copy(os.path.join(EXEC, 'prelude.rs'), os.path.join(d, 'src', 'prelude.rs'))
     active = set(range(len(mods)))
     errs = {}
@@ -117,8 +129,9 @@ def run_t(cfg, named_items, seed, mutants=6):
         order = sorted(active)
         with open(os.path.join(d, 'src', 'lib.rs'), 'w') as f:
             f.write('#![allow(warnings)]\nmod prelude;\n' + '\n'.join(mods[i] for i in order) + '\n')
+        zf = ['--features', 'z'] if cfg in ZCFGS else []
         env = dict(os.environ, CARGO_TARGET_DIR=os.path.join(runner.TARGET, 'typing-' + cfg), CARGO_NET_OFFLINE='true')
-        q = subprocess.run(['cargo', 'check', '--offline', '--message-format=json', '-q'], cwd=d, env=env,
+        q = subprocess.run(['cargo', 'check', '--offline', '--message-format=json', '-q'] + zf, cwd=d, env=env,
                            stdout=subprocess.PIPE, stderr=subprocess.PIPE, text=True)
         found = False
         unattributed = []
@@ -185,7 +198,7 @@ def run_t(cfg, named_items, seed, mutants=6):
 
 def smoke(cfg, seed, n_items=40, mutants=6, pool=None):
     rng = random.Random(seed * 7919 + 13)
-    named = [('rand', it) for it in bgen.items(rng, n_items)]
+    named = [('rand', it) for it in bgen.items(rng, n_items, zero=cfg in ZCFGS)]
     if pool:
         pool = list(pool)
         rng.shuffle(pool)
